@@ -290,24 +290,25 @@ impl ZonedDateTime {
         let start = self.tz.get_iso_datetime_for(&self.instant, provider)?;
         // 3. Let endDateTime be GetISODateTimeFor(timeZone, ns2).
         let end = self.tz.get_iso_datetime_for(&other.instant, provider)?;
-        // If CompareISODate(startDateTime.[[ISODate]], endDateTime.[[ISODate]]) = 0, then
-        if start.date == end.date {
-            // a. Let timeDuration be TimeDurationFromEpochNanosecondsDifference(ns2, ns1).
-            // b. Return CombineDateAndTimeDuration(ZeroDateDuration(), timeDuration).
-            // NOTE: on a day with a repeated hour the wall-clock order of the two instants can be
-            // the reverse of their exact order; there is no whole day between them either way.
-            let time_duration = NormalizedTimeDuration::from_nanosecond_difference(
-                other.epoch_nanoseconds().as_i128(),
-                self.epoch_nanoseconds().as_i128(),
-            )?;
-            return NormalizedDurationRecord::new(crate::DateDuration::default(), time_duration);
-        }
         // 4. If ns2 - ns1 < 0, let sign be -1; else let sign be 1.
         let sign = if other.epoch_nanoseconds().as_i128() - self.epoch_nanoseconds().as_i128() < 0 {
             Sign::Negative
         } else {
             Sign::Positive
         };
+        // If CompareISODate(startDateTime.[[ISODate]], endDateTime.[[ISODate]]) = 0, then
+        // NOTE: around a backward transition the wall-clock order of the two instants can be the
+        // reverse of their exact order: on the same local date (a repeated hour), or on two local
+        // dates when the transition crosses midnight. There is no whole day between them either way.
+        if end.date.cmp(&start.date) as i8 != sign as i8 {
+            // a. Let timeDuration be TimeDurationFromEpochNanosecondsDifference(ns2, ns1).
+            // b. Return CombineDateAndTimeDuration(ZeroDateDuration(), timeDuration).
+            let time_duration = NormalizedTimeDuration::from_nanosecond_difference(
+                other.epoch_nanoseconds().as_i128(),
+                self.epoch_nanoseconds().as_i128(),
+            )?;
+            return NormalizedDurationRecord::new(crate::DateDuration::default(), time_duration);
+        }
         // 5. If sign = 1, let maxDayCorrection be 2; else let maxDayCorrection be 1.
         let max_correction = if sign == Sign::Positive { 2 } else { 1 };
         // 6. Let dayCorrection be 0.
